@@ -453,7 +453,9 @@ pub(crate) fn run(seed: u64, n: u64, out: &mut Out) {
                             let end = start + count - 1;
                             // a filter matches when the block touches (in any role) a script registered below the end of the batch
                             let ms: Vec<u64> = (start..=end).filter(|n| regs.iter().any(|(sid, _, num)| *sid < w.pool.len() && *num < start + count && w.chain().touches(*n, &w.pool[*sid]))).collect();
-                            let mem_empty = w.net.as_ref().unwrap().peers.matched_blocks().read().map(|m| m.is_empty()).unwrap_or(true);
+                            // "nothing waits": neither in memory nor in the store (after a restart or a rollback the records are only in the store
+                            // until they are recovered; since bbd74d4 the handler leaves the script numbers alone then)
+                            let mem_empty = w.net.as_ref().unwrap().peers.matched_blocks().read().map(|m| m.is_empty()).unwrap_or(true) && w.storage.get_earliest_matched_blocks().is_none();
                             Some(format!("(batch_writes {} {} {} {})", mem_empty, start, count, coq_list(&ms.iter().map(|x| format!("{}", x)).collect::<Vec<_>>())))
                         }
                     }
